@@ -155,10 +155,13 @@ def run(ctx, name, kind, **kw):
         cv, n, p = dom.curve, dom.n, dom.p
         L = dom.nbytes()
         others = [x for x in lib.ALL_CURVES if x.baselen == c.baselen and x.name != c.name]
-        for rnd in range(kw["rounds"]):
-            d = rng.choice(gen.boundary_scalars(n, rng, nrand=3))
+        B = gen.boundary_scalars(n, rng, nrand=3)
+        # d = 1 (Q = G), d = 2, d = n-1 (Q = -G) are always among the keys: they make u1*G and u2*Q collide inside the verifier
+        dlist = [(1, True), (1, False), (n - 1, True), (2, False)] + [(rng.choice(B), bool(i % 2)) for i in range(kw["rounds"])]
+        for rnd, (d, reloaded) in enumerate(dlist):
             sk = ecdsa.SigningKey.from_secret_exponent(d, c, hashlib.sha256)
-            vk = sk.verifying_key
+            # a key loaded from bytes carries a plain point; the signing key's own verifying key may carry the curve generator object itself
+            vk = ecdsa.VerifyingKey.from_string(sk.verifying_key.to_string(), c, hashlib.sha256) if reloaded else sk.verifying_key
             Q = ecdsa_ref.pubkey(dom, d)
             msg = b"c02 message %d" % rnd
             dg = hashlib.sha256(msg).digest()
